@@ -74,7 +74,7 @@ type memConn struct {
 	// fault plan
 	failWrite       int // index of Write call to fail (-1 none)
 	failRead        int
-	writeDeadFrom   int // >= 0: every Write with this index or a later one fails (a broken link; reads stay healthy)
+	writeDeadFrom   int   // >= 0: every Write with this index or a later one fails (a broken link; reads stay healthy)
 	failReadErr     error // error returned by the failing Read (default errInjected)
 	failDead        int
 	shortWrite      int            // index of Write call that transfers only half and returns io.ErrShortWrite
